@@ -53,4 +53,94 @@ theorem contend_nonneg {μ} [MemLike μ] (cfg : Cfg) (m : μ) (t : Int) (l : Lis
   · exact contend128_nonneg ..
   · exact contend48_nonneg ..
 
+
+/-- no delay at all when none of the addresses of the pattern is contended (48K) -/
+theorem contend48_zero_of_uncontended (t : Int) (l : List (Int × Int))
+    (h : ∀ x ∈ l, ¬ (0x4000 ≤ x.1 ∧ x.1 < 0x8000)) : contend48 t l = 0 := by
+  unfold contend48
+  suffices ∀ (acc : Int × Int), acc.1 = 0 → (l.foldl _ acc).1 = 0 from this (0, t) rfl
+  induction l with
+  | nil => intro acc h0; simpa using h0
+  | cons x l ih =>
+    intro acc h0
+    simp only [List.foldl_cons]
+    apply ih (fun y hy => h y (by simp [hy]))
+    obtain ⟨d, t'⟩ := acc; obtain ⟨a, n⟩ := x
+    have hx := h (a, n) (by simp)
+    simp only at hx h0 ⊢
+    simp [hx, h0]
+
+/-- no delay when none of the addresses is contended (128K: 0x4000-0x7FFF, and 0xC000+ with an odd bank) -/
+theorem contend128_zero_of_uncontended (o t : Int) (l : List (Int × Int))
+    (h : ∀ x ∈ l, ¬ ((0x4000 ≤ x.1 ∧ x.1 < 0x8000) ∨ (o % 2 ≠ 0 ∧ x.1 ≥ 0xC000))) : contend128 o t l = 0 := by
+  unfold contend128
+  simp only
+  suffices ∀ (acc : Int × Int), acc.1 = 0 → (l.foldl _ acc).1 = 0 from this (0, t) rfl
+  induction l with
+  | nil => intro acc h0; simpa using h0
+  | cons x l ih =>
+    intro acc h0
+    simp only [List.foldl_cons]
+    apply ih (fun y hy => h y (by simp [hy]))
+    obtain ⟨d, t'⟩ := acc; obtain ⟨a, n⟩ := x
+    have hx := h (a, n) (by simp)
+    simp only at hx h0 ⊢
+    simp [hx, h0]
+
+/-- the documented 6,5,4,3,2,1,0,0 pattern: on display line `row` (0..191), `col` T-states into the
+128 T-states of the line during which the ULA fetches, the wait is `[6,5,4,3,2,1,0,0][col % 8]` -/
+theorem delays48_pattern (row col : Int) (hr : 0 ≤ row ∧ row < 192) (hc : 0 ≤ col ∧ col < 128) :
+    delays48 (14335 + 224 * row + col) = pattern (col % 8) := by
+  unfold delays48
+  simp only
+  have h1 : (14335 + 224 * row + col - (64 * 224 - 1)) = 224 * row + col := by omega
+  rw [h1]
+  have h2 : (224 * row + col) / 224 = row := by omega
+  have h3 : (224 * row + col) % 224 = col := by omega
+  have h4 : (224 * row + col) % 8 = col % 8 := by omega
+  rw [h2, h3, h4]
+  have : 0 ≤ 224 * row + col ∧ row < 192 ∧ col < 128 ∧ 14335 + 224 * row + col < 69888 := by omega
+  simp [this]
+
+/-- outside the fetch part of the display lines there is no delay (48K) -/
+theorem delays48_zero_border (row col : Int) (hr : 0 ≤ row ∧ row < 192) (hc : 128 ≤ col ∧ col < 224) :
+    delays48 (14335 + 224 * row + col) = 0 := by
+  unfold delays48
+  simp only
+  have h1 : (14335 + 224 * row + col - (64 * 224 - 1)) = 224 * row + col := by omega
+  rw [h1]
+  have h3 : (224 * row + col) % 224 = col := by omega
+  rw [h3]
+  have : ¬ col < 128 := by omega
+  simp [this]
+
+theorem delays48_zero_before (t : Int) (h : t < 14335) : delays48 t = 0 := by
+  unfold delays48; simp only
+  split
+  · exfalso; omega
+  · rfl
+
+theorem delays48_zero_after (t : Int) (h : 14335 + 224 * 192 ≤ t) : delays48 t = 0 := by
+  unfold delays48; simp only
+  split
+  · exfalso; omega
+  · rfl
+
+theorem delays128_pattern (row col : Int) (hr : 0 ≤ row ∧ row < 192) (hc : 0 ≤ col ∧ col < 128) :
+    delays128 (14361 + 228 * row + col) = pattern (col % 8) := by
+  unfold delays128
+  simp only
+  have h1 : (14361 + 228 * row + col - (63 * 228 - 3)) = 228 * row + col := by omega
+  rw [h1]
+  have h2 : (228 * row + col) / 228 = row := by omega
+  have h3 : (228 * row + col) % 228 = col := by omega
+  rw [h2, h3]
+  have : 0 ≤ 228 * row + col ∧ row < 192 ∧ col < 128 ∧ 14361 + 228 * row + col < 70908 := by omega
+  simp [this]
+
+/-- every I/O contention pattern accounts for exactly the 4 T-states of the I/O cycle -/
+theorem io_contention_sum {μ} [MemLike μ] (cfg : Cfg) (m : μ) (port : Int) :
+    ((io_contention cfg m port).map Prod.snd).sum = 4 := by
+  unfold io_contention; split <;> split <;> rfl
+
 end Contend
